@@ -2,7 +2,8 @@
 # run_harmless.sh [names…]: applies each archived harmless rewrite (seeded/*-h) to /repo, runs the quick check of ALL 20
 # properties, lists every check that raised an alarm, and restores /repo.
 cd /verif
-names="$@"; [ -z "$names" ] && names=$(ls seeded | grep -E '^(C[0-9]+-[hv]|H[0-9]+-[pq])$')
+export VERIF_EVIDENCE_DIR=$(mktemp -d /tmp/seeded-evidence.XXXXXX); trap 'rm -rf "$VERIF_EVIDENCE_DIR"' EXIT
+names="$@"; [ -z "$names" ] && names=$(ls seeded | grep -E '^(C[0-9]+-[hvy]|H[0-9]+-[pq])$')
 for n in $names; do
   git -C /repo apply /verif/seeded/$n/patch.diff 2>/dev/null || { echo -e "$n\tapply-failed"; continue; }
   alarms=""
